@@ -41,7 +41,13 @@ Post(c) == LET accept == c.via = "view"
                st == IF tok # 0 /\ tok \notin pl THEN [st0 EXCEPT !.err = "session_lost"] ELSE Exec(st0, c.script, accept, c.drain)
            IN [live |-> st.l, view |-> IF accept THEN Capture(c.pre_view, st.mint, st.closed) ELSE c.pre_view,
                out |-> st.err, opened |-> st.opened]
+\* c.via = "exit": the client leaves the with_session_token() block (best-effort DELETE of the session it still tracks);
+\* the statement's last sentence: no live session is orphaned by the client.
+ConformsExit(c, o) ==
+  LET ol == {o.live[i] : i \in 1..Len(o.live)} IN
+       {"NothingOrphanedAtExit" : x \in {1} \cap (IF c.tainted \/ ol = {} THEN {} ELSE {1})}
 Conforms(c, o) ==
+  IF c.via = "exit" THEN ConformsExit(c, o) ELSE
   LET ol == {o.live[i] : i \in 1..Len(o.live)}
       pl == {c.pre_live[i] : i \in 1..Len(c.pre_live)}
       grew == ol \ pl # {}
